@@ -19,6 +19,7 @@ func init() {
 	register(&core.Rule{ID: "R-PAUSE-WORKER", Props: []string{"C14"}, Doc: "per stage worker: main select has an arm on the subscriber's PauseCh; on it the worker offers ResumeCh (abandonable on the stage ctx) before looping; pause.Subscribe() is followed by defer pause.Unsubscribe(same value) before any return", Run: rulePauseWorker})
 	register(&core.Rule{ID: "R-PAUSE-NONBLOCK", Props: []string{"C14"}, Doc: "pause.Pause: every channel send sits in a select with default, and the broadcast is reachable only after CompareAndSwap(false,true) succeeded", Run: rulePauseNonblock})
 	register(&core.Rule{ID: "R-RESUME-GUARD", Props: []string{"C14", "C03"}, Doc: "pause.Resume: the blocking receives on subscriber channels are reachable only when isPaused was observed true, under a mutex that serializes Resume; the flag is cleared after the wait", Run: ruleResumeGuard})
+	register(&core.Rule{ID: "R-PAUSE-NO-POLL", Props: []string{"C14"}, Doc: "code run by a pause subscriber (the stage workers and everything they call or start) never loops on the pause state (IsPaused / isPaused.Load): the flag is cleared only after every subscriber has acknowledged, so a subscriber waiting for it to clear can never acknowledge", Run: rulePauseNoPoll})
 	register(&core.Rule{ID: "R-UNSUB-SAFE", Props: []string{"C14"}, Doc: "Unsubscribe deletes the subscriber from the table before closing its channels; Resume's receive uses the comma-ok form so a closed channel ends the wait", Run: ruleUnsubSafe})
 }
 
@@ -345,6 +346,28 @@ func ruleResumeGuard(r *core.Reporter) {
 			}
 		}
 	}
+	// the paused observation that justifies the wait must be made inside the critical section: observed before the
+	// lock it can be stale by the time the lock is obtained (the previous Resume has consumed every acknowledgement)
+	if locked {
+		stale := ssa.Instruction(nil)
+		fresh := false
+		for _, ii := range ir.Ifs(fn) {
+			if !pausedTrue(ii.Atom) || !ir.OnlyVia(ir.Entry(fn), rng, ii.If.Block(), ii.EdgeWhen(true)) {
+				continue
+			}
+			obs := ii.Atom.V.(*ssa.Call)
+			if ir.Reach([]ir.Pt{ir.Entry(fn)}, ir.Opts{Stop: func(in ssa.Instruction) bool { return in == lock }}).Reached[obs] {
+				stale = obs
+			} else {
+				fresh = true
+			}
+		}
+		if fresh {
+			r.Held("pause.Resume/guard-under-lock", 1, "the pause is observed while holding the Resume mutex")
+		} else if stale != nil {
+			r.Violated("pause.Resume/guard-under-lock", p.InstrPos(stale), "the paused flag is tested before the Resume mutex is taken and not again under it: a second Resume that queued on the mutex proceeds after the first has consumed every acknowledgement and cleared the flag, and blocks forever holding the mutex")
+		}
+	}
 	if locked {
 		r.Held("pause.Resume/serialized", 1, "Resume calls are serialized by a mutex held over the wait")
 	} else {
@@ -462,3 +485,80 @@ func ruleUnsubSafe(r *core.Reporter) {
 }
 
 var _ = strings.Contains
+
+func rulePauseNoPoll(r *core.Reporter) {
+	p := r.P
+	// subscribers: functions that call pause.Subscribe
+	var subs []*ssa.Function
+	for _, fn := range p.ModFuncs {
+		if fn.Pkg != nil && fn.Pkg.Pkg.Path() == pkgPause {
+			continue
+		}
+		found := false
+		allInstrs(fn, func(in ssa.Instruction) {
+			if ir.IsCallTo(in, pkgPause+".Subscribe") {
+				found = true
+			}
+		})
+		if found {
+			subs = append(subs, fn)
+		}
+	}
+	if !r.Floor("pause subscribers", len(subs), 4) {
+		return
+	}
+	// everything they call or start (static edges, closures, go statements)
+	seen := map[*ssa.Function]bool{}
+	var walk func(f *ssa.Function, d int)
+	walk = func(f *ssa.Function, d int) {
+		if f == nil || seen[f] || !core.InModule(f) || f.Blocks == nil || d > 8 {
+			return
+		}
+		if f.Pkg != nil && f.Pkg.Pkg.Path() == pkgPause {
+			return
+		}
+		seen[f] = true
+		for _, a := range f.AnonFuncs {
+			walk(a, d+1)
+		}
+		allInstrs(f, func(in ssa.Instruction) {
+			if ci, ok := in.(ssa.CallInstruction); ok {
+				walk(ir.CalleeOf(ci.Common()), d+1)
+			}
+		})
+	}
+	for _, s := range subs {
+		walk(s, 0)
+	}
+	isStateRead := func(in ssa.Instruction) bool {
+		c, ok := in.(*ssa.Call)
+		if !ok {
+			return false
+		}
+		return ir.IsCallTo(c, pkgPause+".IsPaused") || isPausedCall(c, "Load")
+	}
+	polls := 0
+	for f := range seen {
+		allInstrs(f, func(in ssa.Instruction) {
+			if !isStateRead(in) {
+				return
+			}
+			c := in.(*ssa.Call)
+			// re-evaluated in a cycle and deciding a branch
+			inCycle := ir.Reach([]ir.Pt{ir.After(in)}, ir.Opts{}).Reached[in]
+			decides := false
+			for _, ii := range ir.Ifs(f) {
+				if dependsOn(ii.If.Cond, c, map[ssa.Value]bool{}) {
+					decides = true
+				}
+			}
+			if inCycle && decides {
+				polls++
+				r.Violated("poll/"+core.FuncName(f), p.InstrPos(in), "a pause subscriber's code loops on the pause state: Resume clears the flag only after every subscriber has offered its ResumeCh, which this worker cannot do while it waits for the flag — Resume, the worker and Stop wait for each other forever")
+			}
+		})
+	}
+	if polls == 0 {
+		r.Held("subscribers", len(seen), "%d subscribers, %d functions in their closure: none loops on the pause state", len(subs), len(seen))
+	}
+}
